@@ -14,7 +14,7 @@ REPO = os.environ.get("VERIF_REPO", "/repo")
 ENGINE = os.path.join(VERIF, "engine")
 GOSYM = os.path.join(ENGINE, "bin", "gosym")
 CACHE = os.path.join(VERIF, ".cache")
-EVID = os.path.join(VERIF, "evidence")
+EVID = os.environ.get("VERIF_EVIDENCE_DIR") or os.path.join(VERIF, "evidence")
 GOENV = dict(os.environ, GOFLAGS="-mod=mod", GOPROXY="off", GOSUMDB="off", GOTOOLCHAIN="local")
 
 
@@ -40,18 +40,27 @@ def build_engine():
         raise SystemExit(3)
 
 
-_tree_hash = None
+_tree_hash = {}
 
 
-def tree_hash():
+def tree_hash(module=None):
     """Content hash of everything a verdict can depend on: /repo sources (non-test .go,
-    go.mod/go.sum, proto), harness sources and the engine binary."""
-    global _tree_hash
-    if _tree_hash:
-        return _tree_hash
+    go.mod/go.sum, proto), harness sources and the engine binary. With a module, only what
+    that module's runs can depend on (the shared modules types and api, the proto files, the
+    module itself and its harnesses)."""
+    if module in _tree_hash:
+        return _tree_hash[module]
     h = hashlib.sha256()
-    roots = [os.path.join(REPO, d) for d in ("types", "api", "x", "proto")]
-    roots += [os.path.join(VERIF, "harness")]
+    if module is None:
+        roots = [os.path.join(REPO, d) for d in ("types", "api", "x", "proto")]
+        roots += [os.path.join(VERIF, "harness")]
+    else:
+        mod = MODULES[module]
+        dirs = ["types", "api", "proto"]
+        if mod["dir"] not in dirs:
+            dirs.append(mod["dir"])
+        roots = [os.path.join(REPO, d) for d in dirs]
+        roots += [os.path.join(VERIF, "harness", mod["harness"]), os.path.join(VERIF, "harness", "zzverif")]
     for root in roots:
         for dirpath, dirnames, files in os.walk(root):
             dirnames.sort()
@@ -67,8 +76,8 @@ def tree_hash():
                         h.update(hashlib.sha256(fh.read()).digest())
     with open(GOSYM, "rb") as fh:
         h.update(hashlib.sha256(fh.read()).digest())
-    _tree_hash = h.hexdigest()
-    return _tree_hash
+    _tree_hash[module] = h.hexdigest()
+    return _tree_hash[module]
 
 
 MODULES = {
@@ -88,7 +97,7 @@ def run_gosym(run, tier, use_cache=True, workers=16):
     timeout_ms = run.get("timeout_ms", {}).get(tier, 20000 if tier == "quick" else 60000)
     harness = run["harness"][tier] if isinstance(run["harness"], dict) else run["harness"]
     path_budget = 180 if tier == "quick" else 900
-    key = hashlib.sha256(json.dumps([tree_hash(), run["module"], run["pkg"], harness, bstr, timeout_ms,
+    key = hashlib.sha256(json.dumps([tree_hash(run["module"]), run["module"], run["pkg"], harness, bstr, timeout_ms,
                                      run.get("loop", 64), path_budget]).encode()).hexdigest()[:24]
     os.makedirs(CACHE, exist_ok=True)
     cpath = os.path.join(CACHE, key + ".json")
@@ -115,7 +124,10 @@ def run_gosym(run, tier, use_cache=True, workers=16):
     out["ran_at"] = time.strftime("%Y-%m-%dT%H:%M:%SZ", time.gmtime())
     out["run_wall_s"] = time.time() - t0
     out["stderr_tail"] = r.stderr[-2000:]
-    if not out.get("error"):
+    # only conclusive runs are memoised: a solver timeout (machine load) is retried next time
+    shaky = any(hh.get("inconclusive") or any(int(ob.get("unknown", 0)) for ob in hh.get("obligations", {}).values())
+                for hh in out.get("harnesses", []))
+    if not out.get("error") and not shaky:
         with open(cpath, "w") as fh:
             json.dump(out, fh)
     out["reused"] = False
@@ -271,7 +283,7 @@ def write_cex(pid, idx, harness, obligation, first_sat, run_hint):
     os.makedirs(os.path.join(EVID, "cex"), exist_ok=True)
     p = os.path.join(EVID, "cex", "%s-%d.json" % (pid, idx))
     with open(p, "w") as fh:
-        json.dump({"property": pid, "harness": harness, "obligation": obligation,
+        json.dump({"property": pid, "harness": harness, "obligation": obligation, "bounds": run_hint,
                    "model": (first_sat or {}).get("Model"), "full_model": (first_sat or {}).get("Full"),
                    "path": (first_sat or {}).get("Path"), "solver": (first_sat or {}).get("Solver"),
                    "negated_obligation": (first_sat or {}).get("Detail")}, fh, indent=1)
